@@ -859,5 +859,110 @@ example : mergeSort (fun (a b : Nat × Nat) => decide (a.1 < b.1)) [(3, 0), (1, 
     = [(1, 1), (1, 3), (2, 2), (3, 0)] := by
   simp [mergeSort, mergeSortFuel, merge]
 
+
+/-! ## 7. The built-ins that take any number of arguments (regenerated table `positional`)
+
+What each of them hands to its `core::` function, for EVERY argument tuple — stated about the rows
+`translate/dispatch.py` regenerates from `positional.rs` on every run, so a change of an arm breaks the statement.
+Only the aggregates read a single list argument as the list of their items; `concatenate`, `union` and `append`
+take every argument as it is (a single list of lists is ONE list: `concatenate([[1],[2]])` = `[[1],[2]]`). -/
+
+/-- the aggregates: no argument is outside the domain, one list stands for its items, anything else (one item
+that is not a list, several arguments — lists among them) is the list of the arguments themselves -/
+def aggregateArgs (core : Core) (f : String) : List Value → Option (Outcome Value)
+  | [] => nullR
+  | [.list xs] => core f [.vs xs]
+  | args => core f [.vs args]
+
+/-- `concatenate`, `union`: the arguments as they are -/
+def listsArgs (core : Core) (f : String) : List Value → Option (Outcome Value)
+  | [] => nullR
+  | args => core f [.vs args]
+
+/-- `append`: the list, then the items (at least one) -/
+def appendArgs (core : Core) : List Value → Option (Outcome Value)
+  | a :: b :: rest => core "append" [.v a, .vs (b :: rest)]
+  | _ => nullR
+
+/-- `stddev`: as the aggregates, except that a single argument must be a list -/
+def stddevArgs (core : Core) : List Value → Option (Outcome Value)
+  | [] => nullR
+  | [.list xs] => core "stddev" [.vs xs]
+  | [_] => nullR
+  | args => core "stddev" [.vs args]
+
+theorem callPositional_of_row (core : Core) (name : String) (args : List Value) (p : PosRow)
+    (h : (rowsOf name).map Prod.fst = some p) : callPositional core name args = evalPositional core p args := by
+  unfold callPositional
+  cases hr : rowsOf name with
+  | none => simp [hr] at h
+  | some pn =>
+    obtain ⟨p', n⟩ := pn
+    simp only [hr, Option.map_some, Option.some.injEq] at h
+    subst h
+    rfl
+
+theorem aggregate_row_eval (core : Core) (variant f : String) (args : List Value) :
+    evalPositional core ⟨variant, [(.exactly 0, .null),
+      (.exactly 1, .ifList 0 (.call ⟨f, [.itemsOf 0]⟩) (.call ⟨f, [.slice 0]⟩)),
+      (.atLeast 0, .call ⟨f, [.slice 0]⟩)]⟩ args = aggregateArgs core f args := by
+  match args with
+  | [] => rfl
+  | [a] =>
+    cases a <;> simp [evalPositional, PosRow.resolve, Arity.accepts, PBody.resolve, isList, PArg.inst, aggregateArgs]
+  | a :: b :: rest =>
+    simp [evalPositional, PosRow.resolve, Arity.accepts, PBody.resolve, PArg.inst, aggregateArgs]
+
+theorem lists_row_eval (core : Core) (variant f : String) (args : List Value) :
+    evalPositional core ⟨variant, [(.exactly 0, .null), (.atLeast 0, .call ⟨f, [.slice 0]⟩)]⟩ args
+      = listsArgs core f args := by
+  match args with
+  | [] => rfl
+  | a :: rest =>
+    simp [evalPositional, PosRow.resolve, Arity.accepts, PBody.resolve, PArg.inst, listsArgs]
+
+/-- For every argument tuple, `all any max mean median min mode sum` pass `aggregateArgs`, `stddev` passes
+`stddevArgs`, `concatenate` and `union` pass the arguments as they are, `append` the list and then the items. -/
+theorem variadic_dispatch (core : Core) (args : List Value) :
+    (∀ f ∈ ["all", "any", "max", "mean", "median", "min", "mode", "sum"],
+      callPositional core f args = aggregateArgs core f args) ∧
+    (∀ f ∈ ["concatenate", "union"], callPositional core f args = listsArgs core f args) ∧
+    callPositional core "append" args = appendArgs core args ∧
+    callPositional core "stddev" args = stddevArgs core args := by
+  refine ⟨?_, ?_, ?_, ?_⟩
+  · intro f hf
+    simp only [List.mem_cons, List.mem_nil_iff, or_false] at hf
+    rcases hf with rfl | rfl | rfl | rfl | rfl | rfl | rfl | rfl <;>
+      (rw [callPositional_of_row core _ args _ (by rfl)]; exact aggregate_row_eval core _ _ args)
+  · intro f hf
+    simp only [List.mem_cons, List.mem_nil_iff, or_false] at hf
+    rcases hf with rfl | rfl <;>
+      (rw [callPositional_of_row core _ args _ (by rfl)]; exact lists_row_eval core _ _ args)
+  · rw [callPositional_of_row core _ args _ (by rfl)]
+    match args with
+    | [] => rfl
+    | [a] => simp [evalPositional, PosRow.resolve, Arity.accepts, PBody.resolve, appendArgs, nullR]
+    | a :: b :: rest =>
+      simp [evalPositional, PosRow.resolve, Arity.accepts, PBody.resolve, PArg.inst, appendArgs]
+  · rw [callPositional_of_row core _ args _ (by rfl)]
+    match args with
+    | [] => rfl
+    | [a] =>
+      cases a <;> simp [evalPositional, PosRow.resolve, Arity.accepts, PBody.resolve, isList, PArg.inst, stddevArgs, nullR]
+    | a :: b :: rest =>
+      simp [evalPositional, PosRow.resolve, Arity.accepts, PBody.resolve, PArg.inst, stddevArgs]
+
+/-- A single argument that is a list of lists is one list for `concatenate` and `union` (and the list of its
+items — which are lists — for an aggregate). -/
+theorem single_list_of_lists (core : Core) (xss : List Value) :
+    callPositional core "concatenate" [.list xss] = core "concatenate" [.vs [.list xss]] ∧
+    callPositional core "union" [.list xss] = core "union" [.vs [.list xss]] ∧
+    callPositional core "sum" [.list xss] = core "sum" [.vs xss] := by
+  obtain ⟨h1, h2, _, _⟩ := variadic_dispatch core [.list xss]
+  exact ⟨h2 _ (by simp), h2 _ (by simp), h1 _ (by simp)⟩
+
+example : callPositional (core .checked) "concatenate" [.list [.list [n1 1], .list [n1 2]]]
+    = some (.ok (.list [.list [n1 1], .list [n1 2]])) := by rfl
+
 end Bif
 end Dmn
